@@ -269,6 +269,9 @@ func (e *ksEngine) subst(s KeyShape, args []ssa.Value) KeyShape {
 					a.Val = ir.Strip(args[i])
 				}
 			}
+		} else if _, isConst := a.Val.(*ssa.Const); !isConst {
+			// a callee-local value cannot be expressed in the caller's terms
+			a.Val = nil
 		}
 		out = append(out, a)
 	}
